@@ -54,6 +54,16 @@ Theorem C10_push_atomic_succeeds : forall (n : nat) (pre : list step) (c : nat),
 Proof. exact push_atomic_succeeds. Qed.
 Print Assumptions C10_push_atomic_succeeds.
 
+(* the exact extent of the known class: a notes push whose own pre-push fetch and merge were not
+   followed by ANY notes push (whatever else all clones do in between, commits included) is never
+   rejected -- a rejection needs another clone's push between this clone's fetch and push *)
+Theorem C10_rejected_only_when_pushes_overlap : forall (n : nat) (pre mid1 mid2 : list step) (c : nat),
+  (c < n)%nat -> no_push mid1 = true -> no_push mid2 = true ->
+  let s := run (init n) (pre ++ [FetchTracking c] ++ mid1 ++ [MergeLocal c] ++ mid2) in
+  push_outcome s c = PCreated \/ push_outcome s c = PUpdated \/ push_outcome s c = PNoLocal.
+Proof. exact no_reject_without_overlap. Qed.
+Print Assumptions C10_rejected_only_when_pushes_overlap.
+
 (* any prefix pre (any interleaving, races included); then a commit-free phase q1 in which every
    clone has an uninterleaved PushNotes somewhere, then a commit-free phase q2 in which every
    clone has an uninterleaved FetchNotes somewhere (anything else may happen in between):
